@@ -1101,8 +1101,12 @@ class Interp(object):
             a = a.lane if isinstance(a, GenList) else a
             b = b.lane if isinstance(b, GenList) else b
         if isinstance(op, ast.Mult) and isinstance(a, list) and len(a) == 1 and isinstance(b, Sym) and \
-                isinstance(a[0], (Sym, int, float)):
+                isinstance(a[0], (Sym, int, float, str)):
             return GenList(Lane(values.to_term(a[0]), b))          # [c] * n with symbolic n
+        if isinstance(op, ast.Add) and isinstance(a, GenList) and isinstance(b, GenList):
+            w = ir.uf('concat', [a.lane.whole(), b.lane.whole()], 'U')
+            return GenList(Lane(ir.uf('elem', [w, values.IDX], a.lane.t.sort if a.lane.t.sort == b.lane.t.sort else 'R'),
+                                Sym(ir.uf('len', [w], 'I'))))
         if isinstance(a, (Sym, Lane, Arr2)) or isinstance(b, (Sym, Lane, Arr2)):
             if type(op) not in self._BIN:
                 raise Unsupported('operator %s on symbolic values' % type(op).__name__)
